@@ -7,6 +7,16 @@ ROOT = os.path.dirname(os.path.dirname(os.path.abspath(__file__)))
 ALL = ["C%02d" % i for i in range(1, 21)]
 
 CLAIMED = {
+    "C08": dict(
+        category="other",
+        text="Sensor + specification: for every (constraint, target, real/complex, shape 1-D/(1,n)/(B,n)/3-D/4-D, signal family, input scale) the harness measures "
+             "each batch item (power, element-wise output/input ratio, idempotence, rescale invariance, peak, PAPR, 20-dB occupancy) in ppm of the configured limit; "
+             "Constraints.tla holds the contracts and every exemption (zero input, negligible power, sparse signals) and TLC takes the decisions "
+             "(Trace_Constraints). Composition is discrete and decided by TLC proper: MC_Constraints model-checks the fold law, and the stage order recorded by "
+             "forward hooks must equal the declared order; factory OFDM/MIMO composites are measured against all their limits on the final output.",
+        design_ref="7/C08, 8",
+        note="Real-valued power/PAPR contracts cannot be explored by an explicit-state model checker: measurement events with a 2 ppm float32 allowance (level 'other').",
+        technique="TLA+ contract module Constraints + TLC verdicts on sensor measurement events; model checking of the composition law"),
     "C07": dict(
         category="other",
         text="Sensor + specification: the harness measures the added noise y - f(x) of 10^6 samples per configuration (AWGN, Laplacian scale/power/SNR, nonlinear-with-"
